@@ -257,6 +257,33 @@ def nanToNum (a : List (List F)) : List (List Rat) := a.map (fun r => r.map nanT
 /-- `np.zeros(points.shape, dtype=points.dtype)` -/
 def zerosLike (a : List (List Rat)) : List (List Rat) := a.map (fun r => r.map (fun _ => 0))
 
+/-- the two kinds of dtype the accumulation of `compute_vertex_normals` can be given: the dtype of an integer `points`
+array, or a floating point dtype -/
+inductive DType | int | float
+  deriving DecidableEq, Repr
+
+/-- an accumulator array together with its dtype -/
+structure Acc where
+  dt : DType
+  rows : List (List Rat)
+  deriving DecidableEq, Repr
+
+instance : Coe Acc (List (List Rat)) := ⟨Acc.rows⟩
+
+/-- `np.zeros(p.shape, dtype=dt)` -/
+def zerosDT (p : List (List Rat)) (dt : DType) : Acc := ⟨dt, p.map (fun r => r.map (fun _ => 0))⟩
+
+/-- the value numpy stores when a float is added into an integer array: truncated toward zero -/
+def truncQ (x : Rat) : Rat := if x < 0 then -((-x).floor : Int) else (x.floor : Int)
+
+/-- `np.add.at(acc, idx, vals)` on an accumulator of dtype `acc.dt`: unbuffered; an INTEGER accumulator stores the
+truncation of every sum (`same_kind` casting of the ufunc's in-place output) -/
+def addAtDT (acc : Acc) (idx : List Nat) (vals : List (List Rat)) : Acc :=
+  ⟨acc.dt, (idx.zip vals).foldl (fun a p => a.modify p.1 (fun r =>
+    List.zipWith (fun x y => match acc.dt with
+      | .float => x + y
+      | .int => truncQ (x + y)) r p.2)) acc.rows⟩
+
 /-- `np.add.at(acc, idx, vals)`: unbuffered, every occurrence of an index adds its row -/
 def addAt (acc : List (List Rat)) (idx : List Nat) (vals : List (List Rat)) : List (List Rat) :=
   (idx.zip vals).foldl (fun a p => a.modify p.1 (fun r => List.zipWith (fun x y => x + y) r p.2)) acc
